@@ -277,17 +277,20 @@ impl Sys for St {
         }
         let mut c = self.clone();
         let mut buf = vec![0u8; self.cfg.refb.len() + 64];
-        match c.write(&mut buf) {
-            Ok(n) => {
-                if buf[..n] != self.cfg.refb[self.off..] {
-                    return Err(("C02:state-corrupted".into(), format!("from offset {} a large write emits {:?} instead of the rest of the head", self.off, show(&buf[..n]))));
-                }
+        let mut got: Vec<u8> = Vec::new();
+        // large writes until the rest of the head is out (the writer need not be greedy)
+        for _ in 0..400 {
+            if self.off + got.len() >= self.cfg.refb.len() {
+                break;
             }
-            Err(e) => {
-                if self.off < self.cfg.refb.len() {
-                    return Err(("C02:state-corrupted".into(), format!("large write failed at offset {}: {:?}", self.off, e)));
-                }
+            match c.write(&mut buf) {
+                Ok(0) => break,
+                Ok(n) => got.extend_from_slice(&buf[..n]),
+                Err(e) => return Err(("C02:state-corrupted".into(), format!("large write failed at offset {}: {:?}", self.off + got.len(), e))),
             }
+        }
+        if got[..] != self.cfg.refb[self.off..] {
+            return Err(("C02:state-corrupted".into(), format!("from offset {} large writes emit {:?} instead of the rest of the head", self.off, show(&got))));
         }
         Ok(())
     }
@@ -306,8 +309,21 @@ fn cuts_of(refb: &[u8]) -> Vec<usize> {
 fn build_cfg(label: String, spec: Spec, make: Box<dyn Fn() -> W + Send + Sync>) -> Result<Arc<HeadCfg>, (String, String)> {
     let mut st = St { cfg: Arc::new(HeadCfg { label: String::new(), spec: spec.clone(), refb: vec![], cuts: vec![], make: Box::new(|| unreachable!()) }), w: make(), off: 0 };
     let mut buf = vec![0u8; 16384];
-    let n = st.write(&mut buf).map_err(|e| ("C02:valid-request-refused".to_string(), format!("{}: the validity model accepts this request but the first write failed: {:?}", label, e)))?;
-    let refb = buf[..n].to_vec();
+    // the reference head: large writes until the writer reports completion (it need not be greedy)
+    let mut refb = Vec::new();
+    for round in 0..400 {
+        let n = st.write(&mut buf).map_err(|e| (if round == 0 { "C02:valid-request-refused".to_string() } else { "C02:error".to_string() }, format!("{}: the validity model accepts this request but a large write failed: {:?}", label, e)))?;
+        refb.extend_from_slice(&buf[..n]);
+        let done = match &st.w {
+            W::Flow(f) => f.can_proceed(),
+            W::CallNo(c) => c.is_finished(),
+            // the head phase of the single-call API with a body is over when the bytes end with an empty line
+            W::CallBody(_) => refb.ends_with(b"\r\n\r\n"),
+        };
+        if done || n == 0 {
+            break;
+        }
+    }
     check_head_auth_optional(&refb, &spec, spec.auth_optional).map_err(|(k, w)| (k, format!("{}: {}", label, w)))?;
     let cuts = cuts_of(&refb);
     Ok(Arc::new(HeadCfg { label, spec, refb, cuts, make }))
@@ -486,6 +502,7 @@ fn explore_head(cfg: Arc<HeadCfg>, ord: u64, rep: &mut Report) {
         if let W::Flow(f) = (cfg.make)() {
             let mut f = f;
             let mut buf = vec![0u8; 16384];
+            let _ = crate::driver::write_whole_head(&mut f);
             let _ = f.write(&mut buf);
             let _ = f.write(&mut buf);
             let _ = f.write(&mut []);
